@@ -32,7 +32,8 @@ PROFILE_PARK = S.profile(cond_mandatory_only=True, min_tasks=2, max_tasks=4, hor
 PROFILE_STARTOBJ = S.profile(cond_mandatory_only=True, min_tasks=2, max_tasks=4, horizon=(3, 7), p_no_horizon=0, p_resources=40, task_constraints=(0, 2), optional_rules=(0, 1), resource_constraints=(0, 0),
                              objectives=(1, 1), only_objectives=["TasksStartLatest", "MinimizeGreatestStartTime"], p_optional=65)
 PROFILE_WINDOWS = S.profile(cond_mandatory_only=True, min_tasks=2, max_tasks=4, horizon=(3, 7), p_resources=100, n_workers=(2, 3), p_select=15, p_cumulative=10, task_constraints=(0, 1), optional_rules=(0, 0),
-                            resource_constraints=(2, 3), focus=["WorkLoad", "ResourceUnavailable"], exclude=("SameWorkers", "DistinctWorkers"), objectives=(0, 1), p_optional=25, p_work_amount=5, p_reuse_window=75)
+                            resource_constraints=(2, 3), focus=["WorkLoad"], objectives=(0, 1), p_optional=25, p_work_amount=5, p_reuse_window=80,
+                            exclude=("SameWorkers", "DistinctWorkers", "ResourceNonDelay", "ResourceTasksDistance", "ResourceInterrupted", "ResourcePeriodicallyInterrupted", "ResourcePeriodicallyUnavailable", "ResourceUnavailable"))
 PREFIX_PROFILE = S.profile(cond_mandatory_only=True, min_tasks=1, max_tasks=3, p_resources=60, task_constraints=(0, 1), optional_rules=(0, 0), resource_constraints=(0, 1), objectives=(0, 1), p_optional=40)
 NAME_POOL = ["a", "b", "x", "t", "A1", "Task", "task_1", "task_2", "W", "worker", "Ωmega", "tâche", "name with space", "a.b", "x_start", "x_end", "q" * 24,
              "T1", "T2", "T3", "W1", "W2", "K1", "S1", "B1", "c1", "z_busy", "_lead", "n-1", "0", "17", "Selected", "horizon2"]
@@ -184,7 +185,7 @@ def cases(draw, prof=None):
     perms = {}
     for stage in ("tasks", "workers", "selects", "assign", "buffers", "constraints", "indicators"):
         n = len(spec[stage])
-        if n >= 2 and draw(st.booleans()):
+        if n >= 2 and draw(st.integers(0, 99)) < 70:
             perms[stage] = list(draw(st.permutations(list(range(n)))))
     prefix = draw(st.lists(S.specs(PREFIX_PROFILE), min_size=0, max_size=2))
     pins = draw(S.pin_sets(spec, n_sets=4))
